@@ -922,7 +922,19 @@ func oraclePack(c *PackCase, jr *JobResult) []Problem {
 				// entry j lies beneath directory entry i but comes first
 				kind := "bad"
 				ed, ee := expOf[i], expOf[j]
-				if ed != nil && ee != nil {
+				// D21: the directory itself was already written, under its "./" alias, before entry j
+				// (IncludeSourceDir with an include "." next to another include: './x' and 'x' are two paths)
+				dotAlias := false
+				if c.ISD {
+					for k := 0; k < j; k++ {
+						if hs[k].Typeflag == tar.TypeDir && hs[k].Name == "./"+h.Name {
+							dotAlias = true
+						}
+					}
+				}
+				if dotAlias {
+					kind = "D21"
+				} else if ed != nil && ee != nil {
 					renamed := (strings.TrimSuffix(ed.Name, "/") != ed.Rel && !ed.conv()) || (strings.TrimSuffix(ee.Name, "/") != ee.Rel && !ee.conv())
 					switch {
 					case renamed && (ee.Inc != ed.Inc || !pkProperDescendant(ee.Clean, ed.Clean)):
@@ -955,7 +967,7 @@ func oraclePack(c *PackCase, jr *JobResult) []Problem {
 		if m := found["bad"]; m != "" {
 			add(pkProb("C09: (d) %s", m))
 		} else {
-			for _, k := range []string{"D14", "D20", "D19"} {
+			for _, k := range []string{"D14", "D20", "D19", "D21"} {
 				if m := found[k]; m != "" {
 					p := pkProb("C09: (d) %s", m)
 					p.Sig = k
